@@ -768,7 +768,7 @@ fn c05_ws_client(case: &Case) {
     let mut sizes: Vec<usize> = (0..nwriters).map(|_| if big { pick(&[8191usize, 8192, 8193, 20_000, 70_000]) } else { pick(&[0usize, 1, 63, 64, 65, 300, 1000, 3000]) }).collect();
     let mut cancel_mode: Vec<u32> = (0..nwriters).map(|_| pick(&[0u32, 0, 0, 1, 2])).collect();
     // rarely: one multi-megabyte message (beyond any internal buffer), abandoned mid-send
-    if simkernel::choose(300) == 0 {
+    if simkernel::choose(150) == 0 {
         sizes[0] = pick(&[1_100_000usize, 2_500_000]);
         cancel_mode[0] = pick(&[1u32, 2, 2]);
         // (a wide pipe, or the byte-granular simulation of the transfer dominates the run)
@@ -812,6 +812,15 @@ fn c05_ws_client(case: &Case) {
                         }
                     }
                     Ok(Some(Ok(_))) => {}
+                    Ok(Some(Err(tokio_tungstenite::tungstenite::Error::Protocol(e)))) => {
+                        // the byte stream the client wrote is not a sequence of whole WebSocket
+                        // messages (an abrupt end of the connection is not a protocol error of
+                        // the stream itself)
+                        if !matches!(e, tokio_tungstenite::tungstenite::error::ProtocolError::ResetWithoutClosingHandshake) {
+                            srv_case.fail("torn-or-merged-message", format!("after {n} whole messages the client's byte stream violates the WebSocket framing: {e}"));
+                        }
+                        return;
+                    }
                     _ => return,
                 }
             }
